@@ -6,9 +6,12 @@ CONSTANTS
   ActNames = {"addToHead", "tail", "addBefore", "a", "addReplace", "t", "before", "after", "r", "h", "b", "addToTail", "addAfter", "head", "replace"}
   NShapes = 4
   Wide = TRUE
+  BindFocus = FALSE
   Trace = FALSE
 CONSTRAINT Bound
 INVARIANT SelfConsistent
 INVARIANT WireWellTyped
 INVARIANT BindAtomic
+INVARIANT ExactlyOnceInOrder
+INVARIANT SyncAfterEarlier
 INVARIANT FreeLaws
